@@ -27,7 +27,8 @@ PROPERTY = "C16"
 RULE = ("cases = (stage outcomes: syntax error | validation error | ambiguous/unknown operation | variable coercion error | "
         "subscription operation sent through process_graphql_query (InvalidOperationError since fix X5) | "
         "execution) x (document as text | parsed) x (query | mutation=serial) x random field tree (depth<=3, object/list/leaf "
-        "fields, per field outcome returns | raises ResolverError | argument coercion error, null and empty lists) x "
+        "fields, fields typed by an interface, the meta field __typename at root / nested / in list items / on the abstract type, "
+        "introspection root fields __schema / __type with nested selections (their field trees derived from a reference run), per field outcome returns | raises ResolverError | argument coercion error, null and empty lists) x "
         "4 executor/runtime configurations x 0..3 middlewares x instrumentation stack (1..3 leaves, flat or nested "
         "MultiInstrumentation, optional ApolloTracer; members overriding ALL hooks or a non-empty subset: start-only, end-only, "
         "stage-only, field-only, field-end-only, field-start-only, query-only, random subsets; defined in one class, spread over a "
@@ -35,6 +36,9 @@ RULE = ("cases = (stage outcomes: syntax error | validation error | ambiguous/un
         "(all outcome kinds x configurations x small trees x ALL schedules). distinct non-trivial = distinct canonical case "
         "with at least one hook event beyond query start/end")
 ASSUMPTIONS = [
+    "the resolver bodies of the library's own meta-field resolvers (__typename, __schema, __type and the introspection types' lambdas) "
+    "cannot be recorded: for those fields the model's call/ret events are projected away before traces are compared, and the "
+    "middleware oracle is keyed on the field start hook; hooks and middleware entries/exits of meta fields ARE compared",
     "ResolverError is raised by field resolvers; a ResolverError raised during value completion (resolve_type, serialize) is covered "
     "by one named probe only (finding N2: Executor then fires on_field_end twice)",
     "requests whose processing raises out of process_graphql_query (RuntimeError in "
@@ -88,9 +92,19 @@ def gen_partial(rng, instr):
 # ---------------------------------------------------------------------------------------------
 # abstract cases
 # ---------------------------------------------------------------------------------------------
-OBJ_FIELDS = ("n", "nd")
+OBJ_FIELDS = ("n", "nd", "i", "id")      # i / id: typed by the INTERFACE I (abstract type, runtime type T)
 LIST_FIELDS = ("l", "ld")
-LEAF_FIELDS = ("v", "vd", "s", "sd", "dflt")
+LEAF_FIELDS = ("v", "vd", "s", "sd", "dflt", "__typename")
+META_LEAF = ("__typename",)
+# introspection root fields (query root only): sub-selection texts; their field trees are derived from a reference run
+INTRO = {
+    "I1": "__schema { queryType { name } }",
+    "I2": "__type(name: \"T\") { name kind fields { name } }",
+    # (`__type(name: "Nope")` makes the library resolver raise UnknownType, not a ResolverError: no outcome, not used here)
+    "I4": "__schema { types { name } }",
+    "I5": "__schema { directives { name args { name } } mutationType { name } }",
+    "I6": "__type(name: \"I\") { kind possibleTypes { name } }",
+}
 
 
 def gen_template(rng, depth, counter, width=3):
@@ -119,7 +133,7 @@ def instantiate(rng, tmpl, perr, allow_arg):
         if f in ("s", "sd") and allow_arg and r < 0.3:
             node["o"] = "arg"
             node["c"] = {"t": "null"}
-        elif f != "dflt" and r < perr:
+        elif f not in ("dflt",) + META_LEAF and r < perr:
             node["o"] = "raise"
             node["c"] = {"t": "null"}
         else:
@@ -174,6 +188,10 @@ def gen_case(rng, size=2):
         "fields": instantiate(rng, tmpl, rng.choice([0.0, 0.15, 0.4]), novalidate),
         "sched": [rng.randint(0, 7) for _ in range(24)],
     }
+    if not case["serial"] and rng.random() < 0.2:
+        counter[0] += 1
+        case["fields"].insert(rng.randint(0, len(case["fields"])),
+                              {"k": "k%d" % counter[0], "f": "__intro", "intro": rng.choice(sorted(INTRO)), "sel": [], "o": "ret", "c": {"t": "leaf"}})
     if rng.random() < 0.3:
         case["partial"] = gen_partial(rng, case["instr"])
     if outcome == "subscription-op":       # one root field, or validation (SingleFieldSubscriptions) rejects it first
@@ -195,7 +213,7 @@ def is_deferred(config, f):
     if config in ("blocking", "exec-blocking"):
         return False
     if config == "threadpool":
-        return f != "dflt"          # wrap_callable submits every non-default resolver
+        return f != "dflt"          # wrap_callable submits every non-default resolver (the library's meta-field lambdas too)
     return f.endswith("d")          # asyncio: `async def` resolvers
 
 
@@ -222,6 +240,9 @@ def render_sel(tmpl, argmap, path):
     parts = []
     for t in tmpl:
         f = t["f"]
+        if f == "__intro":
+            parts.append("%s: %s" % (t["k"], INTRO[t["intro"]]))
+            continue
         args = ""
         if f in ("s", "sd"):
             args = "(x: %s)" % argmap.get(path + (t["k"],), "1")
@@ -271,7 +292,7 @@ def build_document(case):
     argmap = {}
     arg_errors(case["fields"], (), argmap)
     normalise_args(case["fields"], argmap)
-    tmpl = [{"k": n["k"], "f": n["f"], "sel": n["sel"]} for n in case["fields"]]
+    tmpl = [{"k": n["k"], "f": n["f"], "sel": n["sel"], "intro": n.get("intro")} for n in case["fields"]]
     body = render_sel(tmpl, argmap, ())
     kind = "mutation" if case["serial"] else "query"
     if case["outcome"] == "subscription-op":
@@ -299,23 +320,98 @@ def build_document(case):
     return text, opname, variables
 
 
-def model_fields(case):
-    """field tree as sent to the Lean model (+ the implicit `kv` field of use_var)"""
+def model_fields(case, opaque=None):
+    """field tree as sent to the Lean model (+ the implicit `kv` field of use_var).
+    `opaque` collects the rendered paths of fields whose resolver body cannot be observed (library lambdas of meta fields)."""
     cfg = case["config"]
+    opaque = set() if opaque is None else opaque
 
-    def conv_nodes(nodes):
-        return [{"k": n["k"], "d": is_deferred(cfg, n["f"]), "o": n["o"], "c": conv_comp(n["c"])} for n in nodes]
+    def conv_nodes(nodes, path):
+        out = []
+        for n in nodes:
+            p = path + (n["k"],)
+            if n["f"] == "__intro":
+                out.append(intro_node(cfg, n["k"], n["intro"], opaque))
+                continue
+            if n["f"] in META_LEAF:
+                opaque.add(pstr(p))
+            out.append({"k": n["k"], "d": is_deferred(cfg, n["f"]), "o": n["o"], "c": conv_comp(n["c"], p)})
+        return out
 
-    def conv_comp(c):
+    def conv_comp(c, p):
         if c["t"] == "obj":
-            return {"t": "obj", "fs": conv_nodes(c["fs"])}
+            return {"t": "obj", "fs": conv_nodes(c["fs"], p)}
         if c["t"] == "list":
-            return {"t": "list", "items": [conv_comp(i) for i in c["items"]]}
+            return {"t": "list", "items": [conv_comp(it, p + (i,)) for i, it in enumerate(c["items"])]}
         return {"t": c["t"]}
-    fs = conv_nodes(case["fields"])
+    fs = conv_nodes(case["fields"], ())
     if case["use_var"]:
         fs.append({"k": "kv", "d": is_deferred(cfg, "s"), "o": "ret", "c": {"t": "leaf"}})
     return fs
+
+
+_INTRO_CACHE = {}
+
+
+def intro_shape(intro):
+    """abstract field tree of an introspection root field, derived from a REFERENCE run of the real library (data shape) and the
+    introspection types (which fields have a library resolver = unobservable body, which use the default resolver)."""
+    if intro in _INTRO_CACHE:
+        return _INTRO_CACHE[intro]
+    from py_gql import graphql_blocking
+    from py_gql.lang import parse
+    from py_gql.schema import unwrap_type
+    from py_gql.schema.introspection import SCHEMA_INTROSPECTION_FIELD, TYPE_INTROSPECTION_FIELD, TYPE_NAME_INTROSPECTION_FIELD
+    schema = schema_for("sync")
+    text = "{ x: %s }" % INTRO[intro]
+    res = graphql_blocking(schema, text, context=RunCtx({}), root={"dflt": 1})
+    assert not res.errors, res.errors
+    meta = {"__schema": SCHEMA_INTROSPECTION_FIELD, "__type": TYPE_INTROSPECTION_FIELD, "__typename": TYPE_NAME_INTROSPECTION_FIELD}
+    op = parse(text).definitions[0]
+
+    def walk_field(parent_type, node, value):
+        name = node.name.value
+        fd = meta.get(name) or parent_type.field_map[name]
+        key = node.alias.value if node.alias else name
+        inner = unwrap_type(fd.type)
+        return {"k": key, "lib": fd.resolver is not None, "c": comp(inner, node, value)}
+
+    def comp(inner, node, value):
+        if value is None:
+            return {"t": "null"}
+        if isinstance(value, list):
+            return {"t": "list", "items": [comp(inner, node, v) for v in value]}
+        if isinstance(value, dict):
+            return {"t": "obj", "fs": [walk_field(inner, sub, value[sub.alias.value if sub.alias else sub.name.value])
+                                       for sub in node.selection_set.selections]}
+        return {"t": "leaf"}
+    root = walk_field(schema.query_type, op.selection_set.selections[0], res.data["x"])
+    _INTRO_CACHE[intro] = root
+    return root
+
+
+def intro_node(cfg, key, intro, opaque):
+    def conv(n, path, k=None):
+        p = path + (k or n["k"],)
+        if n["lib"]:
+            opaque.add(pstr(p))
+        # a library resolver is wrapped by the runtime like any other (thread pool: submitted); default-resolved fields are not
+        return {"k": k or n["k"], "d": cfg == "threadpool" and n["lib"], "o": "ret", "c": conv_comp(n["c"], p)}
+
+    def conv_comp(c, p):
+        if c["t"] == "obj":
+            return {"t": "obj", "fs": [conv(f, p) for f in c["fs"]]}
+        if c["t"] == "list":
+            return {"t": "list", "items": [conv_comp(it, p + (i,)) for i, it in enumerate(c["items"])]}
+        return {"t": c["t"]}
+    return conv(intro_shape(intro), (), key)
+
+
+def observable(model_trace, opaque):
+    """drop the resolver-body events the real side cannot record (meta-field lambdas of the library)"""
+    if not opaque:
+        return model_trace
+    return [e for e in model_trace if not (e.split(":")[0] in ("call", "ret", "raise") and e.split(":", 1)[1] in opaque)]
 
 
 def model_instr(instr, partial):
@@ -374,7 +470,7 @@ def value_of(c):
     if t == "null":
         return None
     if t == "obj":
-        return {"dflt": 1}
+        return {"dflt": 1, "__typename__": "T"}
     return [value_of(i) for i in c["items"]]
 
 
@@ -422,9 +518,14 @@ def schema_for(mode):
     def res(name):
         return async_resolver if (mode == "async" and name.endswith("d")) else sync_resolver
 
-    def fields(self_ref):
+    def fields(self_ref, with_resolvers=True):
         t = self_ref[0]
+        iface = self_ref[1]
+        if not with_resolvers:
+            return [Field(f.name, f.type, args=list(f.arguments)) for f in fields(self_ref)]
         return [
+            Field("i", lambda: iface, resolver=res("i")),
+            Field("id", lambda: iface, resolver=res("id")),
             Field("v", Int, resolver=res("v")),
             Field("vd", Int, resolver=res("vd")),
             Field("s", Int, args=[Argument("x", NonNullType(Int))], resolver=res("s")),
@@ -435,9 +536,12 @@ def schema_for(mode):
             Field("l", lambda: ListType(t), resolver=res("l")),
             Field("ld", lambda: ListType(t), resolver=res("ld")),
         ]
-    ref = [None]
-    T = ObjectType("T", lambda: fields(ref))
+    from py_gql.schema import InterfaceType
+    ref = [None, None]
+    I = InterfaceType("I", lambda: fields(ref, False))
+    T = ObjectType("T", lambda: fields(ref), interfaces=[I])
     ref[0] = T
+    ref[1] = I
     Q = ObjectType("Query", fields(ref))
     M = ObjectType("Mutation", fields(ref))
     S = ObjectType("Subscription", fields(ref))
@@ -445,10 +549,11 @@ def schema_for(mode):
 
     def logging_default(root, ctx, info, **args):
         # the schema-wide default resolver (never wrapped by the runtime): used by `dflt`
+        from py_gql.execution import default_resolver
         p = tuple(info.path)
         ctx.log.append(("call", p))
         ctx.log.append(("ret", p))
-        return root.get(info.field_definition.name) if isinstance(root, dict) else None
+        return default_resolver(root, ctx, info, **args)
     s.default_resolver = logging_default
     s.validate()
     _SCHEMAS[mode] = s
@@ -568,7 +673,7 @@ def run_real(case):
     doc = text
     if not case["doc_is_text"]:
         doc = parse(text)
-    kw = dict(variables=variables, operation_name=opname, root={"dflt": 1}, context=rc,
+    kw = dict(variables=variables, operation_name=opname, root={"dflt": 1, "__typename__": "T"}, context=rc,
               middlewares=mws, instrumentation=instr)
     if case.get("novalidate"):
         kw["validators"] = []
@@ -798,14 +903,50 @@ def oracle(case, log, payload):
                         "field %s: middlewares entered in order %s, documented %s" % (pstr(p), order, want)))
         elif m and not (max(s_) < m[0][0] and m[-1][0] < c[0]):
             bad.append(("middleware-outside-field:%s" % cfg, "field %s: middleware ran outside start hook .. resolver call" % pstr(p)))
-    # a middleware chain that ran for a path whose resolver never ran
+    # --- EVERY field resolution (own fields, `__typename`, `__schema`, `__type` and everything below them) passes through
+    #     every middleware exactly once, last one outermost, inside its start .. end hooks. The resolver bodies of the
+    #     library's meta fields cannot be recorded, so this check is keyed on the start hook, not on the call event.
+    plan = plan_of(prepared(case))       # after argument-error normalisation: what the real run used
+    want = list(range(case["mws"] - 1, -1, -1))
+    for k in list(idx):
+        if k[0] != "field+":
+            continue
+        p = k[1]
+        nd = plan.get(p)
+        if nd is not None and nd.get("o") == "arg":
+            expect = []             # argument coercion failed: the resolver (and its middlewares) must not run
+        else:
+            expect = want
+        m = idx.get(("mw>", p), [])
+        order = [j for _, j in m]
+        kindp = "meta" if is_meta_path(p, plan) else "field"
+        if order != expect:
+            if ("call", p) in idx:
+                continue            # already reported by the call-keyed check above
+            bad.append(("middleware-order:%s!=%s:%s:%s" % ("".join(map(str, order)), "".join(map(str, expect)), kindp, cfg),
+                        "%s %s: middlewares entered in order %s, documented %s" % (kindp, pstr(p), order, expect)))
+        elif m:
+            s_ = idx.get(("field+", p), [])
+            e_ = idx.get(("field-", p), [])
+            if not (max(s_) < m[0][0] and (not e_ or m[-1][0] < min(e_))):
+                bad.append(("middleware-outside-field:%s:%s" % (kindp, cfg), "%s %s: middleware ran outside its start .. end hooks" % (kindp, pstr(p))))
+    # a middleware chain that ran for a path that never started
     for k in idx:
-        if k[0] == "mw>" and ("call", k[1]) not in idx:
-            bad.append(("middleware-without-call:%s" % cfg, "field %s: middlewares ran but the resolver did not" % pstr(k[1])))
+        if k[0] == "mw>" and ("field+", k[1]) not in idx:
+            bad.append(("middleware-without-field:%s" % cfg, "field %s: middlewares ran but no start hook fired" % pstr(k[1])))
     # --- ApolloTracer
     if payload is not None:
         bad += tracer_oracle(case, full_log, payload)
     return bad
+
+
+def is_meta_path(p, plan):
+    """the field at `p` is a meta field or lies below an introspection root field"""
+    for n in range(len(p), 0, -1):
+        nd = plan.get(p[:n])
+        if nd is not None:
+            return nd["f"] in META_LEAF + ("__intro",)
+    return False
 
 
 def override_class(hooks):
@@ -956,6 +1097,10 @@ def check_cases(ctx, cases):
         ctx.stat("mws=%d" % case["mws"])
         ctx.stat("instr_leaves=%d" % len(leaves(case["instr"])))
         ctx.stat("nodes=%s" % min(count_nodes(case["fields"]), 12))
+        if any(n["f"] == "__intro" for n in case["fields"]):
+            ctx.stat("introspection_root_field")
+        if "__typename" in json.dumps(case["fields"]):
+            ctx.stat("has___typename")
         if len(tr) > 2 * len(leaves(case["instr"])):
             ctx.nontrivial(json.dumps({k: case[k] for k in case if k != "sel"}, sort_keys=True, default=str))
         if err:
@@ -982,16 +1127,20 @@ def check_cases(ctx, cases):
             ctx.fail(ssig or sig, what, {"case": small, "trace": real_trace(small)[0]})
     if not ctx.model_ok:
         return
-    answers = ctx.driver.ask([model_request(prepared(c)) for c in cases])
-    for case, (tr, err), ans in zip(cases, reals, answers):
+    preps = [prepared(c) for c in cases]
+    answers = ctx.driver.ask([model_request(c) for c in preps])
+    for case, prep, (tr, err), ans in zip(cases, preps, reals, answers):
         if err:
             continue
         if "trace" not in ans:
             ctx.fail("corr:model-error", "model returned %r" % (ans,), {"case": case}, kind="correspondence")
             continue
-        d = compare(case, tr, ans["trace"])
+        opaque = set()
+        model_fields(prep, opaque)
+        mtr = observable(ans["trace"], opaque)
+        d = compare(case, tr, mtr)
         if d:
-            ctx.fail(d[0], d[1], {"case": case, "real": tr, "model": ans["trace"]}, kind="correspondence")
+            ctx.fail(d[0], d[1], {"case": case, "real": tr, "model": mtr}, kind="correspondence")
 
 
 def prepared(case):
@@ -1019,6 +1168,29 @@ def exhaustive_cases():
                     out.append({"config": cfg, "outcome": oc, "doc_is_text": text, "serial": serial, "novalidate": False,
                                 "use_var": oc == "vars", "mws": 2, "instr": [0, 1], "tracer": True,
                                 "fields": copy.deepcopy(forest[:1] if oc == "subscription-op" else forest), "sched": [0] * 12})
+    # meta fields: `__typename` at the root, nested, inside list items and on the abstract type I; every introspection root field
+    tn = lambda k: {"k": k, "f": "__typename", "sel": [], "o": "ret", "c": {"t": "leaf"}}  # noqa
+    tsel = lambda k: {"k": k, "f": "__typename", "sel": []}  # noqa
+    meta_forest = [
+        tn("t0"),
+        {"k": "a", "f": "nd", "sel": [tsel("t1"), {"k": "y", "f": "v", "sel": []}], "o": "ret",
+         "c": {"t": "obj", "fs": [tn("t1"), leaf("y", "v", "raise")]}},
+        {"k": "c", "f": "l", "sel": [tsel("t2")], "o": "ret",
+         "c": {"t": "list", "items": [{"t": "obj", "fs": [tn("t2")]}, {"t": "null"}, {"t": "obj", "fs": [tn("t2")]}]}},
+        {"k": "j", "f": "id", "sel": [tsel("t3"), {"k": "w", "f": "vd", "sel": []}], "o": "ret",
+         "c": {"t": "obj", "fs": [tn("t3"), leaf("w", "vd")]}},
+        {"k": "h", "f": "i", "sel": [tsel("t4")], "o": "ret", "c": {"t": "obj", "fs": [tn("t4")]}},
+    ]
+    for cfg in CONFIGS:
+        for mws in (1, 3):
+            for serial in (False, True):
+                out.append({"config": cfg, "outcome": "exec", "doc_is_text": True, "serial": serial, "novalidate": False, "use_var": False,
+                            "mws": mws, "instr": [0, 1], "tracer": serial, "fields": copy.deepcopy(meta_forest), "sched": [2, 0, 1] + [0] * 12})
+            for intro in sorted(INTRO):
+                out.append({"config": cfg, "outcome": "exec", "doc_is_text": True, "serial": False, "novalidate": False, "use_var": False,
+                            "mws": mws, "instr": 0, "tracer": False,
+                            "fields": [leaf("b", "vd"), {"k": "q", "f": "__intro", "intro": intro, "sel": [], "o": "ret", "c": {"t": "leaf"}}, tn("t0")],
+                            "sched": [1, 0] * 8})
     # partial members: every preset x every style at every position of a 3-stack (flat and nested), all configurations
     presets = sorted(PARTIAL_PRESETS)
     n = 0
